@@ -69,4 +69,43 @@ class DecideSpec(Decide):
             obs.get('argv'), inp['kind'], obs['exc'] or 'accepted', obs['dir_created'])
 
 
-RELATIONS = [Decide(), DecideSpec()]
+class WholeGenerator(Relation):
+    name = 'R_generator'
+    kind = 'corr'
+    requires = ['Gen.Quotas', 'Gen.Files', 'Gen.Args', 'Corr.GenCorr']
+    shard = 30
+    describe = ('accepted runs of all four types with the random draws recorded: the files written equal, byte for byte, '
+                'those of the composed model generator_run (argparse namespace -> decide -> set_defaults -> gargs_of -> '
+                'generate) that C15_accepted_generates is about; non-trivial = an optional parameter was left to its default')
+
+    def cases(self, ctx):
+        from .c08 import gen_runs
+        return gen_runs(ctx, 'c15/generator', 160 if ctx.thorough else 40)
+
+    def observe(self, inp):
+        from .c08 import observe_run
+        return observe_run(inp)
+
+    def term(self, inp, obs):
+        if obs['code'] != 0 or obs['draws'] is None:
+            return 'false'
+        files = C.clist(['(%s, %s)' % (C.cstr(n), C.cstr(t)) for n, t in obs['files']])
+        ds = C.clist([G.cdraws(d) for d in obs['draws']])
+        return '(r_generator %s %s %s %s %s)' % (G.cnamespace(inp['ns']), G.cfloatstrs(inp['ns']), G.cgargs(inp['ns']), ds, files)
+
+    def key(self, inp):
+        return repr((sorted(inp['ns'].items()), inp['seed']))
+
+    def signature(self, inp, obs):
+        return {'relation': self.name, 'ns': inp['ns'], 'seed': inp['seed']}
+
+    def nontrivial(self, inp, obs):
+        ns = inp['ns']
+        return any(ns.get(f) is None for f in ('t1', 'skew', 'lq'))
+
+    def stats(self, inp, obs):
+        ns = inp['ns']
+        return {'mp=' + ns['mp']: 1, 'code=%s' % obs['code']: 1}
+
+
+RELATIONS = [Decide(), DecideSpec(), WholeGenerator()]
